@@ -637,6 +637,97 @@ theorem get_foldl_merge (o : Ctx) (hd : IsDict o) (d : Ctx) (x : Str) :
       cases hv : p.2 <;> simp
     · simp only [hx, if_false, get_mergeStep]
 
+/-! ### case / default-port normalisation of `connection_from_host` -/
+
+/-- overwrite the value of a present key (the `has` branch of `set`) -/
+def upd (k : Str) (v : Val) (c : Ctx) : Ctx := c.map (fun p => if p.1 = k then (p.1, v) else p)
+
+theorem set_of_has {c : Ctx} {k : Str} (v : Val) (h : has c k = true) : set c k v = upd k v c := by
+  unfold set upd; simp [h]
+
+theorem has_upd (k : Str) (v : Val) (c : Ctx) (x : Str) : has (upd k v c) x = has c x := by
+  unfold upd
+  simp only [has, get_map_set]
+  by_cases hx : x = k
+  · subst hx
+    simp only [if_true]
+    by_cases hg : (get c x).isSome = true <;> simp [hg]
+  · simp [hx]
+
+theorem upd_set (k : Str) (v : Val) (c : Ctx) (k' : Str) (v' : Val) :
+    upd k v (set c k' v') = set (upd k v c) k' (if k' = k then v else v') := by
+  unfold set
+  rw [has_upd]
+  by_cases h : has c k' = true
+  · simp only [h, if_true]
+    unfold upd
+    simp only [List.map_map]
+    apply List.map_congr_left
+    intro p _
+    simp only [Function.comp]
+    grind
+  · simp only [h, Bool.false_eq_true, if_false]
+    unfold upd
+    simp only [List.map_append, List.map_cons, List.map_nil]
+    grind
+
+theorem kne_sp : kScheme ≠ kPort := by decide
+theorem kne_hp : kHost ≠ kPort := by decide
+
+/-- the context `connection_from_host` builds on top of the merged keyword arguments `m` -/
+def hostCtx (m : Ctx) (s : Str) (p : Val) (h : Str) : Ctx :=
+  set (set (set m kScheme (.str s)) kPort p) kHost (.str h)
+
+theorem lower_scheme_hostCtx (m : Ctx) (s : Str) (p : Val) (h : Str) :
+    lowerKey (hostCtx m s p h) kScheme =
+      .ok (hostCtx (upd kScheme (.str (lower s)) m) (lower s) p h) := by
+  have hg : get (hostCtx m s p h) kScheme = some (.str s) := by
+    simp [hostCtx, get_set, kne_sh, kne_sp]
+  unfold lowerKey
+  rw [hg]
+  simp only
+  rw [set_of_has _ (has_of_get hg)]
+  unfold hostCtx
+  rw [upd_set, upd_set, upd_set]
+  simp [kne_sh.symm, kne_sp.symm]
+
+theorem lower_host_hostCtx (m : Ctx) (s : Str) (p : Val) (h : Str) :
+    lowerKey (hostCtx m s p h) kHost =
+      .ok (hostCtx (upd kHost (.str (lower h)) m) s p (lower h)) := by
+  have hg : get (hostCtx m s p h) kHost = some (.str h) := by
+    simp [hostCtx, get_set]
+  unfold lowerKey
+  rw [hg]
+  simp only
+  rw [set_of_has _ (has_of_get hg)]
+  unfold hostCtx
+  rw [upd_set, upd_set, upd_set]
+  simp [kne_sh, kne_hp.symm]
+
+theorem normalize_hostCtx_case (m : Ctx) (p : Val) {s₁ s₂ h₁ h₂ : Str}
+    (hs : lower s₁ = lower s₂) (hh : lower h₁ = lower h₂) :
+    normalize (hostCtx m s₁ p h₁) = normalize (hostCtx m s₂ p h₂) := by
+  unfold normalize normalizeWith pre
+  simp only [lower_scheme_hostCtx, lower_host_hostCtx, hs, hh]
+
+/-- `scheme or "http"` -/
+def schemeOr (s : Str) : Str := if s.isEmpty then kHttp else s
+
+/-- `if not port: port = port_by_scheme.get(scheme.lower(), 80)` -/
+def portOr (p : Val) (sch : Str) : Val :=
+  if p.truthy then p else .int ((List.lookup (lower sch) Gen.portByScheme).getD 80)
+
+theorem requestContext_eq (d : Ctx) (h : Str) (p : Val) (s : Str) (kw : Option Ctx) :
+    requestContext d (some h) p (some s) kw =
+      if h.isEmpty then .error .locationValueError
+      else .ok (hostCtx (merge d kw) (schemeOr s) (portOr p (schemeOr s)) h) := rfl
+
+theorem lower_schemeOr {s₁ s₂ : Str} (hs : lower s₁ = lower s₂) :
+    lower (schemeOr s₁) = lower (schemeOr s₂) := by
+  unfold schemeOr
+  have hl : s₁.length = s₂.length := by rw [← lower_length s₁, hs, lower_length]
+  cases s₁ <;> cases s₂ <;> simp_all
+
 /-! ### small decision helpers for the non-vacuity examples -/
 
 instance : DecidableEq (Except Exc Key) := fun a b =>
